@@ -360,4 +360,5 @@ VARIANTS = [
     V("class-level-cache", "src/leaspy/algo/fit/mcmc_saem.py", "        sufficient_statistics = model.compute_sufficient_statistics(state)\n", "        sufficient_statistics = model.compute_sufficient_statistics(state)\n        TensorMcmcSaemAlgorithm._last_stats = sufficient_statistics\n", "C11.R6"),
     V("shallow-params", AB, "self.algo_parameters = deepcopy(settings.parameters)", "self.algo_parameters = settings.parameters", "C11.R7"),
     V("silent-seed-helper", AB, "        self._initialize_seed(self.seed)\n        time_beginning = time.time()", "        seed = self.seed\n        self._initialize_seed(self.seed)\n        time_beginning = time.time()", None),
+    V("silent-rename-run-kwargs", AB, "run_kwargs", "kw", None, count=4),
 ]
